@@ -11,11 +11,13 @@ Arguments nlen : simpl never.
 
 Definition okc (c : N) : Prop := 46 <= c.
 
+Definition hl (w a b : N) : Prop := (w / 256) mod 256 = a /\ w mod 256 = b.
+
 Definition rt_goal (a : list N) : Prop :=
   nlen (text6 a) <= 45 /\ Forall okc (text6 a) /\ inet_pton6 (text6 a) = (0%Z, a).
 
 Ltac len_tac :=
-  unfold nlen; rewrite ?app_length; simpl length;
+  unfold nlen; repeat first [rewrite app_length | progress simpl length];
   repeat match goal with |- context [length (hex_u16 ?w)] =>
            pose proof (hex_u16_len w); generalize dependent (length (hex_u16 w)); intros end;
   repeat match goal with |- context [length (fmt4 ?w)] =>
@@ -38,6 +40,34 @@ Ltac step :=
   | rewrite loop_v4tail by (first [assumption | (unfold nlen; simpl length; lia)]); cbn [app]
   | rewrite finish_store by (first [apply nlen_hex_ne | (unfold nlen; simpl length; lia)]); cbn [app] ].
 
+Ltac ok_tac :=
+  repeat first [ apply Forall_nil | (apply hex_ok; assumption) | apply fmt4_ok
+               | (apply Forall_cons; [unfold okc; lia|]) | (apply Forall_app; split) ].
+
+Ltac parse_tac :=
+  rewrite <- ?app_assoc; cbn [app];
+  first [rewrite pton6_start_gap | rewrite pton6_start_hex by assumption];
+  repeat step; cbn [pton6_loop]; repeat step; rewrite ?finish_val;
+  repeat match goal with H : hl _ _ _ |- _ => destruct H as [-> ->] end;
+  vm_compute; repeat f_equal; lia.
+
+Ltac eval_tac :=
+  cbn [fmt6_pure fst snd negb andb orb Z.eqb Z.leb Z.ltb Z.compare Z.add Pos.compare Pos.compare_cont
+       Pos.eqb Pos.add Pos.add_carry Pos.succ Z.pos_sub Z.succ_double Z.pred_double Z.double
+       Pos.pred_double app].
+
+Ltac case_tac :=
+  eval_tac;
+  repeat match goal with |- context [if ?c then _ else _] => destruct c eqn:? end;
+  rewrite ?app_nil_r;
+  split; [len_tac | split; [ok_tac | parse_tac]].
+
+Ltac zero_tac :=
+  match goal with Hz : forallb _ _ = true |- _ => simpl in Hz end;
+  repeat match goal with H : _ && _ = true |- _ => apply andb_true_iff in H; destruct H end;
+  repeat match goal with Hz : is_zero ?w = true, Z : is_zero ?w = true -> _ |- _ =>
+           specialize (Z Hz); destruct Z end.
+
 Lemma rt_test a0 a1 a2 a3 a4 a5 a6 a7 a8 a9 a10 a11 a12 a13 a14 a15 :
   Forall (fun x => x < 256) [a0; a1; a2; a3; a4; a5; a6; a7; a8; a9; a10; a11; a12; a13; a14; a15] ->
   rt_goal [a0; a1; a2; a3; a4; a5; a6; a7; a8; a9; a10; a11; a12; a13; a14; a15].
@@ -46,14 +76,6 @@ Proof.
   repeat match goal with H : Forall _ (_ :: _) |- _ => inversion H; clear H; subst end.
   match goal with H : Forall _ [] |- _ => clear H end.
   unfold rt_goal, text6. cbn [firstn words_of map nth skipn].
-  pose proof (hi_lo a0 a1) as [Hh0 Hl0]; try assumption.
-  pose proof (hi_lo a2 a3) as [Hh1 Hl1]; try assumption.
-  pose proof (hi_lo a4 a5) as [Hh2 Hl2]; try assumption.
-  pose proof (hi_lo a6 a7) as [Hh3 Hl3]; try assumption.
-  pose proof (hi_lo a8 a9) as [Hh4 Hl4]; try assumption.
-  pose proof (hi_lo a10 a11) as [Hh5 Hl5]; try assumption.
-  pose proof (hi_lo a12 a13) as [Hh6 Hl6]; try assumption.
-  pose proof (hi_lo a14 a15) as [Hh7 Hl7]; try assumption.
   pose proof (word_zero a0 a1) as Z0. pose proof (word_zero a2 a3) as Z1.
   pose proof (word_zero a4 a5) as Z2. pose proof (word_zero a6 a7) as Z3.
   pose proof (word_zero a8 a9) as Z4. pose proof (word_zero a10 a11) as Z5.
@@ -66,14 +88,32 @@ Proof.
   remember (a4 * 256 + a5) as w2. remember (a6 * 256 + a7) as w3.
   remember (a8 * 256 + a9) as w4. remember (a10 * 256 + a11) as w5.
   remember (a12 * 256 + a13) as w6. remember (a14 * 256 + a15) as w7.
+  assert (HL0 : hl w0 a0 a1) by (subst w0; apply hi_lo; assumption).
+  assert (HL1 : hl w1 a2 a3) by (subst w1; apply hi_lo; assumption).
+  assert (HL2 : hl w2 a4 a5) by (subst w2; apply hi_lo; assumption).
+  assert (HL3 : hl w3 a6 a7) by (subst w3; apply hi_lo; assumption).
+  assert (HL4 : hl w4 a8 a9) by (subst w4; apply hi_lo; assumption).
+  assert (HL5 : hl w5 a10 a11) by (subst w5; apply hi_lo; assumption).
+  assert (HL6 : hl w6 a12 a13) by (subst w6; apply hi_lo; assumption).
+  assert (HL7 : hl w7 a14 a15) by (subst w7; apply hi_lo; assumption).
   pose proof (best_run_ok (is_zero w0) (is_zero w1) (is_zero w2) (is_zero w3)
                           (is_zero w4) (is_zero w5) (is_zero w6) (is_zero w7)) as Hok.
   destruct (best_run [is_zero w0; is_zero w1; is_zero w2; is_zero w3;
                       is_zero w4; is_zero w5; is_zero w6; is_zero w7]) as [bb bl] eqn:Hbest.
   clear Hbest. unfold run_ok in Hok.
   rewrite orb_true_iff in Hok. destruct Hok as [Hm1 | Hok].
-  - apply Z.eqb_eq in Hm1. subst bb.
-    cbn [fmt6_pure fst snd negb andb orb Z.eqb Z.leb Z.ltb Z.compare Z.add Pos.compare Pos.compare_cont
-         Pos.eqb Pos.add Pos.succ Z.pos_sub app].
+  - apply Z.eqb_eq in Hm1. subst bb. case_tac.
+  - rewrite !andb_true_iff in Hok. destruct Hok as [[[Hb0 Hb2] Hb8] Hz].
+    apply Z.leb_le in Hb0, Hb2, Hb8.
+    assert (Hbb : (bb = 0 \/ bb = 1 \/ bb = 2 \/ bb = 3 \/ bb = 4 \/ bb = 5 \/ bb = 6)%Z) by lia.
+    assert (Hbl : (bl = 2 \/ bl = 3 \/ bl = 4 \/ bl = 5 \/ bl = 6 \/ bl = 7 \/ bl = 8)%Z) by lia.
+    destruct Hbb as [->|[->|[->|[->|[->|[->| ->]]]]]];
+      destruct Hbl as [->|[->|[->|[->|[->|[->| ->]]]]]]; try (exfalso; lia).
+    all: zero_tac.
+    4: eval_tac; destruct (w5 =? 65535) eqn:E5; rewrite ?app_nil_r; (split; [len_tac | split; [ok_tac | ]]).
+    4: rewrite <- ?app_assoc; cbn [app]; first [rewrite pton6_start_gap | rewrite pton6_start_hex by assumption].
+    4: repeat step; cbn [pton6_loop]; repeat step; rewrite ?finish_val.
+    4: repeat match goal with H : hl _ _ _ |- _ => destruct H as [-> ->] end.
+    4: vm_compute.
     Show.
 Abort.
